@@ -50,7 +50,7 @@ func sl(s string) ast.Node   { return ast.StrLit{V: s} }
 func toa(e ast.Node) ast.Node { return ast.Call{Fn: "toa", Args: []ast.Node{e}} }
 
 // consumer builds the traced consuming statement(s) for pipelines ps (1 = plain loop, 2 = zip).
-func c02Consumer(r *core.Rng, ps []*gen.Pipe, traced bool) (stmts []ast.Node, retAt int, shape string) {
+func c02Consumer(r *core.Rng, ps []*gen.Pipe, traced bool, pre []*gen.Pipe) (stmts []ast.Node, retAt int, shape string) {
 	vars := []string{"v"}
 	its := []ast.Node{ps[0].Expr()}
 	var bval ast.Node = nm("v")
@@ -94,7 +94,11 @@ func c02Consumer(r *core.Rng, ps []*gen.Pipe, traced bool) (stmts []ast.Node, re
 	} else {
 		body = append(body, nm("acc"))
 	}
-	loop := ast.For{Vars: vars, Iters: its, Body: ast.Block{Stmts: body}}
+	var loop ast.Node = ast.For{Vars: vars, Iters: its, Body: ast.Block{Stmts: body}}
+	if !traced && len(ps) == 2 && r.Bool() {
+		// directly nested consumer loops instead of a zip (cross product)
+		loop = ast.For{Vars: vars[:1], Iters: its[:1], Body: ast.For{Vars: vars[1:], Iters: its[1:], Body: ast.Block{Stmts: body}}}
+	}
 	core_ := []ast.Node{ast.Assign{Name: "acc", Value: ast.IntLit{V: 0}}, ast.Assign{Name: "cnt", Value: ast.IntLit{V: 0}}, loop}
 	if !(retAt >= 0) {
 		core_ = append(core_, nm("acc"))
@@ -113,13 +117,22 @@ func c02Consumer(r *core.Rng, ps []*gen.Pipe, traced bool) (stmts []ast.Node, re
 		d := int64(r.Range(1, 30))
 		rec := ast.FuncLit{Params: []string{"d"}, Body: ast.If{Cond: ast.Binary{Op: ">", L: nm("d"), R: ast.IntLit{V: 0}}, Then: ast.Call{Fn: "vc", Args: []ast.Node{ast.Binary{Op: "-", L: nm("d"), R: ast.IntLit{V: 1}}}}, Else: ast.Block{Stmts: core_}}}
 		return []ast.Node{ast.Assign{Name: "vc", Value: rec}, ast.Call{Fn: "vc", Args: []ast.Node{ast.IntLit{V: d}}}}, retAt, shape
-	default: // after other loops ran in the same statement (recycled contexts)
+	default: // after other loops ran in the same statement (recycled contexts, some of them created under other generators)
 		shape = "after-loops"
-		pre := []ast.Node{}
-		for k := r.Range(1, 3); k > 0; k-- {
-			pre = append(pre, ast.For{Vars: []string{"q"}, Iters: []ast.Node{ast.Call{Fn: "fromto", Args: []ast.Node{ast.IntLit{V: 0}, ast.IntLit{V: int64(r.Range(1, 3))}}}}, Body: nm("q")})
+		pl := []ast.Node{}
+		for k := r.Range(0, 2); k > 0; k-- {
+			pl = append(pl, ast.For{Vars: []string{"q"}, Iters: []ast.Node{ast.Call{Fn: "fromto", Args: []ast.Node{ast.IntLit{V: 0}, ast.IntLit{V: int64(r.Range(1, 3))}}}}, Body: nm("q")})
 		}
-		return []ast.Node{ast.Assign{Name: "vc", Value: ast.FuncLit{Body: ast.Block{Stmts: append(pre, core_...)}}}, ast.Call{Fn: "vc"}}, retAt, shape
+		for _, pp := range pre {
+			pl = append(pl, ast.For{Vars: []string{"q"}, Iters: []ast.Node{pp.Expr()}, Body: ast.Binary{Op: "+", L: nm("q"), R: ast.IntLit{V: 1}}})
+		}
+		if len(pl) == 0 {
+			pl = append(pl, ast.For{Vars: []string{"q"}, Iters: []ast.Node{ast.Call{Fn: "fromto", Args: []ast.Node{ast.IntLit{V: 0}, ast.IntLit{V: 2}}}}, Body: nm("q")})
+		}
+		if r.Bool() {
+			return []ast.Node{ast.Block{Stmts: append(pl, core_...)}}, retAt, shape + "-top-level"
+		}
+		return []ast.Node{ast.Assign{Name: "vc", Value: ast.FuncLit{Body: ast.Block{Stmts: append(pl, core_...)}}}, ast.Call{Fn: "vc"}}, retAt, shape
 	}
 }
 
@@ -177,12 +190,15 @@ func stagesOf(p *gen.Pipe, m map[int]int, which int) {
 
 // checkTrace evaluates the trace laws. want is the expected consumer value
 // sequence (already cut at the early return, if any).
-func checkTrace(evs []traceEv, ps []*gen.Pipe, want []string, retAt int) string {
+func checkTrace(evs []traceEv, ps []*gen.Pipe, want []string, retAt int, pre []*gen.Pipe) string {
 	owner := map[int]int{}
 	for i, p := range ps {
 		stagesOf(p, owner, i)
 	}
-	stacks := make([][]traceEv, len(ps))
+	for i, p := range pre {
+		stagesOf(p, owner, len(ps)+i)
+	}
+	stacks := make([][]traceEv, len(ps)+len(pre))
 	var bs []string
 	returned := false
 	inBody := false
@@ -260,8 +276,17 @@ func checkTrace(evs []traceEv, ps []*gen.Pipe, want []string, retAt int) string 
 	return ""
 }
 
+// c02Pre draws 0..2 pipelines consumed by loops that run before the payload loop.
+func c02Pre(r *core.Rng, id *int) []*gen.Pipe {
+	var pre []*gen.Pipe
+	for k := r.Range(0, 2); k > 0; k-- {
+		pre = append(pre, gen.RandPipe(r, r.Range(1, 2), id))
+	}
+	return pre
+}
+
 func c02Pipes(r *core.Rng) ([]*gen.Pipe, []string) {
-	id := 0
+	id := 100
 	n := 1
 	if r.Chance(1, 4) {
 		n = 2
@@ -289,7 +314,12 @@ func c02Trace(ctx *core.Ctx, idx int) core.Result {
 	r := core.CaseRng(ctx.Seed, "C02/trace", idx)
 	var res core.Result
 	ps, want := c02Pipes(r)
-	stmts, retAt, shape := c02Consumer(r, ps, true)
+	pid := 0
+	pre := c02Pre(r, &pid)
+	stmts, retAt, shape := c02Consumer(r, ps, true, pre)
+	if !strings.HasPrefix(shape, "after-loops") {
+		pre = nil
+	}
 	if retAt >= 0 && len(want) > retAt {
 		want = want[:retAt+1]
 	}
@@ -312,7 +342,7 @@ func c02Trace(ctx *core.Ctx, idx int) core.Result {
 	}
 	evs, bad := parseTrace(out)
 	if bad == "" {
-		bad = checkTrace(evs, ps, want, retAt)
+		bad = checkTrace(evs, ps, want, retAt, pre)
 	}
 	res.Add("trace_events", len(evs))
 	res.Add("pipelines", len(ps))
@@ -379,7 +409,8 @@ func c02Diff(ctx *core.Ctx, idx int) core.Result {
 	var extra map[string]any
 	if r.Chance(1, 2) {
 		ps, _ := c02Pipes(r)
-		cons, _, shape := c02Consumer(r, ps, false)
+		pid := 0
+		cons, _, shape := c02Consumer(r, ps, false, c02Pre(r, &pid))
 		stmts = append(append([]ast.Node{}, pipeLibrary(false)...), cons...)
 		extra = map[string]any{"consumer_shape": shape}
 	} else {
